@@ -262,6 +262,95 @@ fn shared_expression_probe(c: &Case, rep: &mut Report, seed: u64) {
     }
 }
 
+/// Adjacent-coordinates probe: a memo keyed on *rounded* coordinates is only visible between two
+/// places that fall into the same rounding cell yet have different answers. Such pairs are found
+/// by bisecting the latitude (every evaluation on a fresh thread) between two places whose daily
+/// schedules differ, down to two adjacent f64 values. Then, on one thread, one place is evaluated
+/// in one of 15 ways (schedule_at / state / two days of intervals, on day D-2..D+2) and the other
+/// place's schedule of day D right after it, in both orders, and compared with the fresh-thread
+/// answer: whatever the memo remembers last, one of the sequences ends on it.
+fn adjacent_coordinates_probe(seed: u64, rep: &mut Report, searches: u64) {
+    const EXPR: &str = "sunrise-sunset, (sunset+00:10)-(sunrise-00:10) unknown";
+    fn build(lat: f64, lon: f64) -> OpeningHours<TzLocation<Tz>> {
+        let c = Coordinates::new(lat, lon).expect("valid coordinates");
+        OpeningHours::parse(EXPR).unwrap().with_context(Context::default().with_locale(TzLocation::new(chrono_tz::UTC).with_coords(c)))
+    }
+    // (place to evaluate first, how (0..15), relative day) then the unit under test: schedule_at(day) of `second`
+    let run_seq = |first: Option<((f64, f64), u64)>, second: (f64, f64), day: NaiveDate| -> String {
+        std::thread::spawn(move || {
+            crate::out::install_quiet_panic_hook();
+            guarded(|| {
+                if let Some((place, how)) = first {
+                    let oh = build(place.0, place.1);
+                    let d = day + Duration::days(how as i64 % 5 - 2);
+                    let noon = chrono_tz::UTC.from_utc_datetime(&d.and_hms_opt(12, 0, 0).unwrap());
+                    match how / 5 {
+                        0 => {
+                            let _ = oh.schedule_at(d);
+                        }
+                        1 => {
+                            let _ = oh.state(noon);
+                        }
+                        _ => {
+                            let _ = oh.iter_range(noon.clone(), noon + Duration::days(2)).count();
+                        }
+                    }
+                }
+                fmt_sched(build(second.0, second.1).schedule_at(day))
+            })
+            .unwrap_or_else(|p| format!("PANIC {p}"))
+        })
+        .join()
+        .unwrap_or_else(|_| "PANIC in thread".into())
+    };
+    for k in 0..searches {
+        let mut r = Rng::new(seed, 0xad3ace, k);
+        let site = SITES[r.below(SITES.len() as u64) as usize];
+        let lon = site.1 + (r.f64() - 0.5) * 2.0;
+        let day = NaiveDate::from_yo_opt(r.range(1990, 2060) as i32, 1 + r.below(365) as u32).unwrap();
+        // 1 in 4 searches near the polar-day / polar-night threshold
+        let (mut lo, mut hi) = if r.chance(25) { (60.0 + r.f64() * 5.0, 72.0 + r.f64() * 5.0) } else { (site.0 - 0.4 * r.f64(), site.0 + 0.3 + 0.4 * r.f64()) };
+        let f = |lat: f64| run_seq(None, (lat, lon), day);
+        let (flo, fhi) = (f(lo), f(hi));
+        if flo == fhi {
+            rep.count("adjacent_probe_no_difference_found");
+            continue;
+        }
+        let mut steps = 0;
+        loop {
+            let mid = lo + (hi - lo) / 2.0;
+            if mid <= lo || mid >= hi || steps > 80 {
+                break;
+            }
+            if f(mid) == flo {
+                lo = mid;
+            } else {
+                hi = mid;
+            }
+            steps += 1;
+        }
+        rep.count("adjacent_coordinate_pairs_probed");
+        let (alone_lo, alone_hi) = (f(lo), f(hi));
+        for how in 0..15u64 {
+            for (first, second, expect) in [((lo, lon), (hi, lon), &alone_hi), ((hi, lon), (lo, lon), &alone_lo)] {
+                rep.evaluations += 2;
+                rep.count("adjacent_coordinate_sequences");
+                let got = run_seq(Some((first, how)), second, day);
+                if got != *expect {
+                    let what = ["schedule_at", "state at noon", "two days of intervals"][(how / 5) as usize];
+                    rep.violation(
+                        "result_depends_on_history",
+                        format!("{EXPR:?} [UTC]: schedule_at({day}) at ({:?}, {lon:?}) evaluated on one thread right after {what} on day {:+} at the adjacent place ({:?}, {lon:?}) gives\n  {got}\nbut alone on a fresh thread it gives\n  {expect}", second.0, how as i64 % 5 - 2, first.0),
+                        json!({"seed": seed, "adjacent_probe": k}),
+                        None,
+                    );
+                    return;
+                }
+            }
+        }
+    }
+}
+
 fn extra<'a>(args: &'a Args, key: &str) -> Option<&'a str> {
     args.extra.iter().find_map(|e| e.strip_prefix(&format!("{key}=")))
 }
@@ -343,6 +432,9 @@ pub fn reference(args: &Args, rep: &mut Report, n: usize, allow_tz: bool) -> Vec
             rep.violation("result_depends_on_history", format!("case {} {:?} [{:?}] at {}: a fresh thread evaluating it alone gets a different result:\n  main thread  {a}\n  fresh thread {fresh}", c.id, c.text, c.ctx, c.t), json!({"seed": args.seed, "case": c.id, "expr": c.text}), None);
         }
         answers.push(a);
+    }
+    if !LIGHT.load(Ordering::Relaxed) {
+        adjacent_coordinates_probe(args.seed, rep, 60);
     }
     rep.add("reference_cases", cases.len() as u64);
     answers
